@@ -177,6 +177,8 @@ type state struct {
 var alphaJSON = []byte(",:\"']}[{()+-.01entf\\")
 var alphaSEN = []byte(",:\"']}[{()+-.01entf\\/*# \nI")
 var alphaJP = []byte("$@.[]()?*'\",:-01a=!<>&|~ ")
+var confusions = []string{"0", "1]", "1}", "\"\":0", ":0", "\"", "\":0", ",0", ",\"\":0", "ull", "rue", "alse", ".5", "e1", "5",
+	"\"b\":1", ",\"b\":1", "\"b\":1}", ",1]", "1,2", ":1,\"b\":2"}
 var classReps = []byte(" \n{}[],:\"\\/bfnrtualseE01-+.x\x01\x7f\x80cA'()")
 
 func rName(r int) string {
@@ -583,8 +585,13 @@ func genStates(path string, quick bool, want map[string]bool, emit func(job)) {
 			emit(job{b: w, cls: "eof:" + s.Pc, lang: l})
 			for _, x := range bytesToTry {
 				depth := kAll
-				if inAlpha[x] && !(quick && l == "sen") {
+				if inAlpha[x] && l != "sen" { // the SEN front-ends are ~20x slower per call: continuations stay at kAll
 					depth = kAlpha
+				}
+				// continuations "as if the byte had been accepted into some other grammar position" (a wrong table cell
+				// typically faults only when a plausible rest of the document follows), then the state's closers
+				for _, mid := range confusions {
+					emit(job{b: cat(w, []byte{x}, []byte(mid), cl), cls: "step+conf:" + s.Pc, lang: l, light: l == "sen"})
 				}
 				conts(alphaJSON, depth, func(c []byte) {
 					in := cat(w, []byte{x}, c)
@@ -738,6 +745,9 @@ func genSen(r *rand.Rand, quick bool, emit func(job)) {
 	}
 	for si, s := range seeds {
 		doc := []byte(s)
+		if si >= len(senSeeds) {
+			k = 0 // random seeds: no continuation
+		}
 		emit(job{b: doc, cls: "sen-seed", lang: "sen"})
 		for p := 0; p <= len(doc); p++ {
 			if si >= len(senSeeds) && p%3 != 0 {
